@@ -273,6 +273,43 @@ for pid in ('C02', 'C12'):
 for pid in ('C13', 'C16'):
     fire(pid, 'vacuous-size-guard', (W, "if (s.size() > 0 && s[s.size()-1] == ' ')", "if (s.size() >= 0 && s[s.size()-1] == ' ')"))
 
+# ---- second mutation sweep (statement deletions, disabled guards, constants)
+fire('C16', 'no-eof-exit', ('src/Header.cpp', """        if (file.eof())
+            throw std::ios_base::failure("File is empty");
+""", ''))
+quiet('C16', 'eof-exit-as-fail', ('src/Header.cpp', '        if (file.eof())\n            throw std::ios_base::failure("File is empty");', '        if (file.fail() || file.eof())\n            throw std::ios_base::failure("File is empty");'))
+for pid in ('C01', 'C03', 'C04', 'C12'):
+    fire(pid, 'label-half-copied', ('src/Header.cpp', '_eventsLabel[i].copy(event, 2*ezc3d::DATA_TYPE::WORD);', '_eventsLabel[i].copy(event, 1*ezc3d::DATA_TYPE::WORD);'))
+fire('C09', 'setter-stores-nothing', ('src/Group.cpp', '    _description = description;', '    ;'))
+fire('C09', 'setter-stores-elsewhere', ('src/Parameter.cpp', '    _description = description;', '    _name = description;'))
+fire('C09', 'bool-overload', ('include/Parameter.h', '    void set(int data);', '    void set(int data);\n    void set(bool data) { set(static_cast<int>(data)); }'))
+fire('C07', 'name-dispatch-gt-1', (W, """void ezc3d::c3d::point(const std::string &name){
+    if (data().nbFrames() > 0){""", """void ezc3d::c3d::point(const std::string &name){
+    if (data().nbFrames() > 1){"""))
+quiet('C07', 'name-dispatch-ne-0', (W, """void ezc3d::c3d::point(const std::string &name){
+    if (data().nbFrames() > 0){""", """void ezc3d::c3d::point(const std::string &name){
+    if (data().nbFrames() != 0){"""))
+fire('C02', 'labels-only-above-one', ('src/Data.cpp', 'if (file.header().nbAnalogs() > 0)\n        analogNames', 'if (file.header().nbAnalogs() > 1)\n        analogNames'))
+quiet('C02', 'labels-when-nonzero', ('src/Data.cpp', 'if (file.header().nbAnalogs() > 0)\n        analogNames', 'if (file.header().nbAnalogs() != 0)\n        analogNames'))
+fire('C05', 'labels-source-with-one-frame', (W, """    if (data().nbFrames() > 0)
+        nPoints = data().frame(0).points().nbPoints();""", """    if (data().nbFrames() > 1)
+        nPoints = data().frame(0).points().nbPoints();"""))
+fire('C10', 'updater-frame-1', (W, 'name = data().frame(0).points().point(i).name();', 'name = data().frame(1).points().point(i).name();'))
+for pid in ('C01', 'C02', 'C04'):
+    fire(pid, 'analog-rescaled-on-load', ('src/Data.cpp', 'c.data(file.readFloat());', 'c.data(file.readFloat() * 2);'))
+for pid in ('C01', 'C02'):
+    fire(pid, 'one-char-strings-dropped', (W, 'if (dimension[0] != 0) {', 'if (dimension[0] != 1) {'))
+fire('C14', 'append-mode', (W, 'std::fstream f(filePath, std::ios::out | std::ios::binary);', 'std::fstream f(filePath, std::ios::out | std::ios::app | std::ios::binary);'))
+fire('C14', 'in-out-no-trunc', (W, 'std::fstream f(filePath, std::ios::out | std::ios::binary);', 'std::fstream f(filePath, std::ios::in | std::ios::out | std::ios::binary);'))
+quiet('C14', 'explicit-trunc', (W, 'std::fstream f(filePath, std::ios::out | std::ios::binary);', 'std::fstream f(filePath, std::ios::out | std::ios::trunc | std::ios::binary);'))
+fire('C15', 'reopen-forgets-failure', (W, '    f.close();\n' + FINAL, '    f.close();\n    f.open(filePath, std::ios::in | std::ios::out | std::ios::binary);\n    f.close();\n' + FINAL))
+fire('C18', 'writes-through-const-input', (W, '    std::vector<std::string> labels(parameters().group("POINT").parameter("LABELS").valuesAsString());\n    for (size_t i=0; i<labels.size(); ++i)\n        try {', '    std::vector<std::string> labels(parameters().group("POINT").parameter("LABELS").valuesAsString());\n    if (f.points().nbPoints() > 0) f.points_nonConst().point_nonConst(0).name(labels.size() ? labels[0] : "");\n    for (size_t i=0; i<labels.size(); ++i)\n        try {'))
+fire('C11', 'reported-size-counts-named', ('src/Parameters.cpp', """size_t ezc3d::ParametersNS::Parameters::nbGroups() const
+{
+    return _groups.size();""", """size_t ezc3d::ParametersNS::Parameters::nbGroups() const
+{
+    return static_cast<size_t>(std::count_if(_groups.begin(), _groups.end(), [](const ezc3d::ParametersNS::GroupNS::Group& g) { return !g.name().empty(); }));"""))
+
 def main():
     made = 0
     skipped = []
